@@ -17,14 +17,14 @@ theorem step_ret_cons' (p : Fun.CheckedProgram) (v f k) :
 theorem cont_ifR {srt : Fun.IfSort} {a : BitVec 64} {t e : Fun.Term} {env : Fun.Env}
     {k : Fun.Stack} {c : Core.Term} {i n : Nat} {T E : Core.Stmt} {ρ0 ρ : CEnv} {out : Out}
     {z1 z2 : Core.Ident} {τ1 τ2 : Core.Ty} {v : Fun.Value} {V : CVal}
-    (hgt : good t = true) (hge : good e = true)
+    (hgt : good p t = true) (hge : good p e = true)
     (hct : Compiled q i t c T) (hce : Compiled q i e c E) (hin : i ≤ n)
-    (he : EnvRel GP q n (fv t ++ fv e) env ρ0) (hr : CRel GP q n k c ρ0)
+    (he : EnvRel (GP p) q n (fv t ++ fv e) env ρ0) (hr : CRel (GP p) q n k c ρ0)
     (hbT : BoundOn (tfvStmt T []) ρ0) (hbE : BoundOn (tfvStmt E []) ρ0)
     (haT : AgreeOn (tfvStmt T []) ρ0 ρ) (haE : AgreeOn (tfvStmt E []) ρ0 ρ)
     (hl1 : Core.Env.lookup ρ z1 = .ok (.int a)) (hl2 : Core.Env.lookup ρ z2 = .ok V)
-    (hv : VRel GP q n v V) :
-    Chunk p q (R q) true (.ret v (.ifR srt a t e env :: k))
+    (hv : VRel (GP p) q n v V) :
+    Chunk p q (R p q) true (.ret v (.ifR srt a t e env :: k))
       ⟨.ifc (compileSort srt) (.var .prd z1 τ1) (.var .prd z2 τ2) T E, ρ, out, n⟩ := by
   cases hv with
   | int b =>
@@ -41,18 +41,19 @@ theorem cont_ifR {srt : Fun.IfSort} {a : BitVec 64} {t e : Fun.Term} {env : Fun.
       exact SRel.eval (ρ0 := ρ0) hge (hce.mono hin) (he.sub fun y hy => by simp [hy]) hr hbE haE
   | con _ => exact .inl ⟨0, _, .stuck (.notInt "if"), .refl _, rfl, fun h => h.elim⟩
   | cont _ => exact .inl ⟨0, _, .stuck (.notInt "if"), .refl _, rfl, fun h => h.elim⟩
+  | obj _ _ _ _ _ => exact .inl ⟨0, _, .stuck (.notInt "if"), .refl _, rfl, fun h => h.elim⟩
 
 /-- `if □ ~ 0 {t} else {e}` -/
 theorem cont_ifZ {srt : Fun.IfSort} {t e : Fun.Term} {env : Fun.Env}
     {k : Fun.Stack} {c : Core.Term} {i n : Nat} {T E : Core.Stmt} {ρ0 ρ : CEnv} {out : Out}
     {z1 : Core.Ident} {τ1 : Core.Ty} {v : Fun.Value} {V : CVal}
-    (hgt : good t = true) (hge : good e = true)
+    (hgt : good p t = true) (hge : good p e = true)
     (hct : Compiled q i t c T) (hce : Compiled q i e c E) (hin : i ≤ n)
-    (he : EnvRel GP q n (fv t ++ fv e) env ρ0) (hr : CRel GP q n k c ρ0)
+    (he : EnvRel (GP p) q n (fv t ++ fv e) env ρ0) (hr : CRel (GP p) q n k c ρ0)
     (hbT : BoundOn (tfvStmt T []) ρ0) (hbE : BoundOn (tfvStmt E []) ρ0)
     (haT : AgreeOn (tfvStmt T []) ρ0 ρ) (haE : AgreeOn (tfvStmt E []) ρ0 ρ)
-    (hl1 : Core.Env.lookup ρ z1 = .ok V) (hv : VRel GP q n v V) :
-    Chunk p q (R q) true (.ret v (.ifZ srt t e env :: k))
+    (hl1 : Core.Env.lookup ρ z1 = .ok V) (hv : VRel (GP p) q n v V) :
+    Chunk p q (R p q) true (.ret v (.ifZ srt t e env :: k))
       ⟨.ifz (compileSort srt) (.var .prd z1 τ1) T E, ρ, out, n⟩ := by
   cases hv with
   | int a =>
@@ -69,16 +70,17 @@ theorem cont_ifZ {srt : Fun.IfSort} {t e : Fun.Term} {env : Fun.Env}
       exact SRel.eval (ρ0 := ρ0) hge (hce.mono hin) (he.sub fun y hy => by simp [hy]) hr hbE haE
   | con _ => exact .inl ⟨0, _, .stuck (.notInt "if"), .refl _, rfl, fun h => h.elim⟩
   | cont _ => exact .inl ⟨0, _, .stuck (.notInt "if"), .refl _, rfl, fun h => h.elim⟩
+  | obj _ _ _ _ _ => exact .inl ⟨0, _, .stuck (.notInt "if"), .refl _, rfl, fun h => h.elim⟩
 
 /-- `print(□); next` -/
 theorem cont_print {nl : Bool} {next : Fun.Term} {env : Fun.Env}
     {k : Fun.Stack} {c : Core.Term} {i n : Nat} {N : Core.Stmt} {ρ0 ρ : CEnv} {out : Out}
     {z1 : Core.Ident} {τ1 : Core.Ty} {v : Fun.Value} {V : CVal}
-    (hg : good next = true) (hcn : Compiled q i next c N) (hin : i ≤ n)
-    (he : EnvRel GP q n (fv next) env ρ0) (hr : CRel GP q n k c ρ0)
+    (hg : good p next = true) (hcn : Compiled q i next c N) (hin : i ≤ n)
+    (he : EnvRel (GP p) q n (fv next) env ρ0) (hr : CRel (GP p) q n k c ρ0)
     (hb : BoundOn (tfvStmt N []) ρ0) (ha : AgreeOn (tfvStmt N []) ρ0 ρ)
-    (hl1 : Core.Env.lookup ρ z1 = .ok V) (hv : VRel GP q n v V) :
-    Chunk p q (R q) true (.ret v (.print nl next env :: k))
+    (hl1 : Core.Env.lookup ρ z1 = .ok V) (hv : VRel (GP p) q n v V) :
+    Chunk p q (R p q) true (.ret v (.print nl next env :: k))
       ⟨.print nl (.var .prd z1 τ1) N, ρ, out, n⟩ := by
   cases hv with
   | int a =>
@@ -88,30 +90,33 @@ theorem cont_print {nl : Bool} {next : Fun.Term} {env : Fun.Env}
       SRel.eval (ρ0 := ρ0) hg (hcn.mono hin) he hr hb ha⟩
   | con _ => exact .inl ⟨0, _, .stuck (.notInt "print"), .refl _, rfl, fun h => h.elim⟩
   | cont _ => exact .inl ⟨0, _, .stuck (.notInt "print"), .refl _, rfl, fun h => h.elim⟩
+  | obj _ _ _ _ _ => exact .inl ⟨0, _, .stuck (.notInt "print"), .refl _, rfl, fun h => h.elim⟩
 
 /-- `exit □` -/
 theorem cont_exit {n : Nat} {ρ : CEnv} {out : Out} {ty : Core.Ty}
     {z1 : Core.Ident} {τ1 : Core.Ty} {v : Fun.Value} {V : CVal}
-    (hl1 : Core.Env.lookup ρ z1 = .ok V) (hv : VRel GP q n v V) :
-    Chunk p q (R q) true (.ret v [.exitF]) ⟨.exit (.var .prd z1 τ1) ty, ρ, out, n⟩ := by
+    (hl1 : Core.Env.lookup ρ z1 = .ok V) (hv : VRel (GP p) q n v V) :
+    Chunk p q (R p q) true (.ret v [.exitF]) ⟨.exit (.var .prd z1 τ1) ty, ρ, out, n⟩ := by
   cases hv with
   | int a =>
     have hs := step_exit_var (q := q) (t1 := τ1) (ty := ty) (out := out) (n := n) hl1 .prd
     exact .inl ⟨0, _, .done a, .refl _, rfl, fun _ => ⟨0, _, .done a, .refl _, rfl, hs, .done a⟩⟩
   | con _ => exact .inl ⟨0, _, .stuck (.notInt "exit"), .refl _, rfl, fun h => h.elim⟩
   | cont _ => exact .inl ⟨0, _, .stuck (.notInt "exit"), .refl _, rfl, fun h => h.elim⟩
+  | obj _ _ _ _ _ => exact .inl ⟨0, _, .stuck (.notInt "exit"), .refl _, rfl, fun h => h.elim⟩
 
 /-- the top-level continuation of `main` -/
 theorem cont_main {n : Nat} {ρ : CEnv} {out : Out} {ty : Core.Ty}
     {z1 : Core.Ident} {τ1 : Core.Ty} {v : Fun.Value} {V : CVal}
-    (hl1 : Core.Env.lookup ρ z1 = .ok V) (hv : VRel GP q n v V) :
-    Chunk p q (R q) true (.ret v []) ⟨.exit (.var .prd z1 τ1) ty, ρ, out, n⟩ := by
+    (hl1 : Core.Env.lookup ρ z1 = .ok V) (hv : VRel (GP p) q n v V) :
+    Chunk p q (R p q) true (.ret v []) ⟨.exit (.var .prd z1 τ1) ty, ρ, out, n⟩ := by
   cases hv with
   | int a =>
     have hs := step_exit_var (q := q) (t1 := τ1) (ty := ty) (out := out) (n := n) hl1 .prd
     exact .inl ⟨0, _, .done a, .refl _, rfl, fun _ => ⟨0, _, .done a, .refl _, rfl, hs, .done a⟩⟩
   | con _ => exact .inl ⟨0, _, .stuck (.notInt "main"), .refl _, rfl, fun h => h.elim⟩
   | cont _ => exact .inl ⟨0, _, .stuck (.notInt "main"), .refl _, rfl, fun h => h.elim⟩
+  | obj _ _ _ _ _ => exact .inl ⟨0, _, .stuck (.notInt "main"), .refl _, rfl, fun h => h.elim⟩
 
 theorem Compiled.fv_ne_sig {i : Nat} {t : Fun.Term} {c : Core.Term} {T : Core.Stmt}
     (h : Compiled q i t c T) : ∀ y ∈ fv t, y ≠ sig := by
@@ -124,22 +129,22 @@ theorem Compiled.sig_lt {i m : Nat} {t : Fun.Term} {c : Core.Term} {T : Core.Stm
   exact h4.sig_lt him
 
 /-- `if □ ~ b {t} else {e}` -/
-theorem cont_ifL (hq : q.codataTypes = []) (hp : p.codataTypes = [])
+theorem cont_ifL (hcod : CodOK p q)
     {srt : Fun.IfSort} {b t e : Fun.Term} {env : Fun.Env}
     {k : Fun.Stack} {c : Core.Term} {i n : Nat} {B : Core.Term} {T E : Core.Stmt} {ρ0 ρ : CEnv}
     {out : Out} {z1 : Core.Ident} {τ1 : Core.Ty} {v : Fun.Value} {V : CVal}
-    (hgb : good b = true) (hgt : good t = true) (hge : good e = true)
+    (hgb : good p b = true) (hgt : good p t = true) (hge : good p e = true)
     {stb stb' : CompileState} (hcb : compile b .i64 stb = .ok (B, stb')) (hstb : StOK q stb')
     (htnb : TermNames b stb)
     (hct : Compiled q i t c T) (hce : Compiled q i e c E) (hin : i ≤ n)
-    (he : EnvRel GP q n (fv b ++ fv t ++ fv e) env ρ0) (hr : CRel GP q n k c ρ0)
+    (he : EnvRel (GP p) q n (fv b ++ fv t ++ fv e) env ρ0) (hr : CRel (GP p) q n k c ρ0)
     (hbB : BoundOn (tfvTerm B []) ρ0) (hbT : BoundOn (tfvStmt T []) ρ0)
     (hbE : BoundOn (tfvStmt E []) ρ0)
     (haB : AgreeOn (tfvTerm B []) ρ0 ρ) (haT : AgreeOn (tfvStmt T []) ρ0 ρ)
     (haE : AgreeOn (tfvStmt E []) ρ0 ρ)
     (hl1 : Core.Env.lookup ρ z1 = .ok V) (hz1 : z1.name = sig → z1.id < n)
-    (hv : VRel GP q n v V) :
-    Chunk p q (R q) true (.ret v (.ifL srt b t e env :: k))
+    (hv : VRel (GP p) q n v V) :
+    Chunk p q (R p q) true (.ret v (.ifL srt b t e env :: k))
       ⟨.ifc (compileSort srt) (.var .prd z1 τ1) B T E, ρ, out, n⟩ := by
   cases hv with
   | int a =>
@@ -151,9 +156,9 @@ theorem cont_ifL (hq : q.codataTypes = []) (hp : p.codataTypes = [])
       have := hz1 (by rw [e]; rfl)
       rw [e] at this
       simp [sigmaName_id] at this
-    have hete : EnvRel GP q n (fv t ++ fv e) env ρ0 := he.sub fun y hy => by
+    have hete : EnvRel (GP p) q n (fv t ++ fv e) env ρ0 := he.sub fun y hy => by
       simp only [List.mem_append] at hy ⊢; rcases hy with h | h <;> simp [h]
-    refine operand_sim hq hp b hgb (fun h => .ifc (compileSort srt) (.var .prd z1 τ1) h T E)
+    refine operand_sim hcod b hgb (fun h => .ifc (compileSort srt) (.var .prd z1 τ1) h T E)
       (fun A hA => split_ifc2 rfl hA) hcb hstb htnb (he.sub fun y hy => by simp [hy]) hbB haB ?_ ?_
     · intro τ
       refine KRel.ifR (i := n) (ρ0 := ρ0) hgt hge (Nat.lt_succ_self n) hzne hl1 (hct.mono hin)
@@ -182,5 +187,6 @@ theorem cont_ifL (hq : q.codataTypes = []) (hp : p.codataTypes = [])
       exact hl1
   | con _ => exact .inl ⟨0, _, .stuck (.notInt "if"), .refl _, rfl, fun h => h.elim⟩
   | cont _ => exact .inl ⟨0, _, .stuck (.notInt "if"), .refl _, rfl, fun h => h.elim⟩
+  | obj _ _ _ _ _ => exact .inl ⟨0, _, .stuck (.notInt "if"), .refl _, rfl, fun h => h.elim⟩
 
 end Scc.Fun2Core.Sem
